@@ -244,6 +244,47 @@ func oracleRequestFromOffer(r *Run, a [][]byte) {
 }
 
 func genC15(r *Run) {
+	// the builder that takes an interface name is NewDiscovery with that interface's hardware address as a default
+	// like any other: on every interface of this host that has one, for several modifier lists (some setting the
+	// hardware address themselves), the two give the same packet
+	if ifs, err := net.Interfaces(); err == nil {
+		seen := 0
+		for _, ifc := range ifs {
+			if seen >= 3 {
+				break
+			}
+			for k := 0; k < 6; k++ {
+				xid := dhcpv4.TransactionID{9, byte(k), 7, 1}
+				mods := []dhcpv4.Modifier{dhcpv4.WithTransactionID(xid)}
+				switch k {
+				case 1:
+					mods = append(mods, dhcpv4.WithHwAddr(net.HardwareAddr{2, 0, 0, 0xaa, 0xbb, byte(k)}))
+				case 2:
+					mods = append(mods, dhcpv4.WithBroadcast(true), dhcpv4.WithHwAddr(net.HardwareAddr{}))
+				case 3:
+					mods = append(mods, dhcpv4.WithOption(dhcpv4.OptHostName("h")), dhcpv4.WithHwAddr(net.HardwareAddr(r.Bytes(16))))
+				case 4:
+					mods = append(mods, dhcpv4.WithMessageType(dhcpv4.MessageTypeInform))
+				case 5:
+					mods = append(mods, dhcpv4.WithGatewayIP(net.IP{10, 9, 8, 7}), dhcpv4.WithHwAddr(net.HardwareAddr{6, 5, 4, 3, 2, 1}))
+				}
+				a, ea := dhcpv4.NewDiscoveryForInterface(ifc.Name, mods...)
+				b, eb := dhcpv4.NewDiscovery(ifc.HardwareAddr, mods...)
+				if (ea == nil) != (eb == nil) {
+					r.Fail("c15-discovery-for-interface", fmt.Sprintf("interface %s (%s), modifier list %d", ifc.Name, ifc.HardwareAddr, k), fmt.Sprintf("errors differ: %v vs %v", ea, eb))
+					continue
+				}
+				if ea == nil && !bytes.Equal(a.ToBytes(), b.ToBytes()) {
+					r.Fail("c15-discovery-for-interface", fmt.Sprintf("interface %s (%s), modifier list %d", ifc.Name, ifc.HardwareAddr, k),
+						"NewDiscoveryForInterface and NewDiscovery with the interface's address give different packets for the same modifiers: "+firstDiff(hx(b.ToBytes()), hx(a.ToBytes())))
+				}
+			}
+			if len(ifc.HardwareAddr) > 0 {
+				seen++
+			}
+		}
+		r.Extra["interfaces_with_hardware_address"] = seen
+	}
 	n := r.N(2500, 150000)
 	for i := 0; i < n; i++ {
 		opts := map[byte][]byte{}
